@@ -11,6 +11,9 @@ missed=[x['seed'] for x in r if not x.get('caught_now') and x['seed'] not in obs
 r4=[x['seed'] for x in r if re.search(r'-1[0-2]$', x['seed'])]
 r4first=sum(1 for k in r4 if init.get(k,'').startswith('caught'))
 r4missed=len(r4)-r4first
+r5=[x['seed'] for x in r if re.search(r'-1[3-5]$', x['seed'])]
+r5first=sum(1 for k in r5 if init.get(k,'').startswith('caught'))
+r5missed=len(r5)-r5first
 rows=[]
 for x in r:
     rb='; '.join(sorted(set(y.split(' ')[1] for y in x.get('reported_by',[]) if y.startswith('report['))))
@@ -42,6 +45,13 @@ a repair of the checker itself (C13-12: a new method nobody calls statically had
 been removed from view by the helper inliner). Reading the code for that
 round, the agents also pointed at three defects of pint itself, all
 reproduced and repaired (F41, F42, F43 in section 6).
+A fifth round (seeds 13–15) asked for changes that look like feature
+additions or performance work (caches, memos, buffer reuse, early exits),
+for interactions between two subsystems, and for behaviour that depends on the
+shape of the data (empty and one-element lists, duplicates, non-ASCII text,
+very long lines, zero values): {r5first} of 60 were reported on first contact,
+{r5missed} were missed and closed the same way; one more defect of pint itself
+came out of the agents' reading (F44).
 I kept a change only after confirming in a scratch worktree
 (`tools/confirm_seed.sh`, network-less namespace): it builds, the unedited
 suite passes with it, the demo fails with it and passes without. Each is stored
